@@ -130,6 +130,16 @@ def find_path(cfg, path):
     return sub
 
 
+_PASS_ALL = {}
+
+
+def pass_all_filter(vendor):
+    if vendor not in _PASS_ALL:
+        from annet.annlib.rbparser.acl import compile_acl_text
+        _PASS_ALL[vendor] = compile_acl_text("~ %global\n", vendor)
+    return _PASS_ALL[vendor]
+
+
 def judge(vendor, acl_level, acl_compiled, acl_text, old, new, report):
     from annet import api
     prefix, exits = VENDORS[vendor]
@@ -141,6 +151,18 @@ def judge(vendor, acl_level, acl_compiled, acl_text, old, new, report):
         report({"kind": "exception", "exc": type(e).__name__, "acl_shape": acl_shape(acl_text)}, case, repr(e)[:300])
         return 0, False
     paths = list(env.formatter(vendor).cmd_paths(patch).keys())
+    # the same run with a filter ACL (--filter-acl) that lets every line through: the generators' ACL still decides what is
+    # owned and what may be deleted, so nothing may change
+    if old != new:
+        try:
+            _d2, patch2 = api._diff_and_patch(env.device(vendor), env.to_odict(old), env.to_odict(new), acl_compiled,
+                                              pass_all_filter(vendor), False, rb=rbk)
+            paths2 = list(env.formatter(vendor).cmd_paths(patch2).keys())
+        except Exception as e:  # noqa
+            paths2 = "%s: %s" % (type(e).__name__, e)
+        if paths2 != paths:
+            report({"kind": "pass-all-filter-acl-changes-patch", "acl_shape": acl_shape(acl_text)}, case,
+                   "without a filter ACL: %r; with the filter ACL '~ %%global': %r" % (paths, paths2))
     # (a)
     for p in paths:
         if p[-1] in exits:
